@@ -215,10 +215,12 @@ func c14LastResultIsError(fd *ast.FuncDecl) bool {
 }
 
 // c14Touches: does the body (minus the recognised guard) use the receiver for anything but
-//   recv.processor.log.<M>(...)   logging
-//   recv.driver.Sync(...)         starting the driver
-//   recv.reorgDetector...         the reorg detector (a collaborator, not stored syncer data)
-//   recv.<config field>           plain configuration (c14ConfigFields)
+//
+//	recv.processor.log.<M>(...)   logging
+//	recv.driver.Sync(...)         starting the driver
+//	recv.reorgDetector...         the reorg detector (a collaborator, not stored syncer data)
+//	recv.<config field>           plain configuration (c14ConfigFields)
+//
 // Conservative: every other use of the receiver (any other field, passing it on, ...) counts as touching data.
 func c14Touches(fd *ast.FuncDecl, recv string, skipFirst bool) (bool, string) {
 	if recv == "" || recv == "_" {
